@@ -1,7 +1,7 @@
 (* C05 — every persistence-matrix flavour computes the same, correct barcode.
    Property theorems only (proofs in Reduce.v / ReduceExec.v). *)
 From Coq Require Import ZArith List Znumtheory.
-Require Import Reduce ReduceExec ReduceAlg.
+Require Import Reduce ReduceExec ReduceAlg RepCycle PosNeg.
 Local Open Scope Z_scope.
 
 (* The pairing of a boundary matrix D over Z_p is well defined: any two reduced matrices obtained from D by
@@ -68,6 +68,39 @@ Print Assumptions C05_reduction_step_lowers.
 Theorem C05_standard_reduction_exists : forall p, prime p -> forall n D, exists R, tri p n D R /\ reduced p n R.
 Proof. exact standard_reduction_exists. Qed.
 Print Assumptions C05_standard_reduction_exists.
+
+(* ---- the barcode is a partition of the cells (coq/PosNeg.v).  "Positive" (zero reduced column) is a property of D
+   alone - the boundary of the cell is a combination of the boundaries of the older cells - whatever reduced
+   decomposition is looked at; in a chain complex (D.D = 0: every column of D is a cycle) a cell that is the low of a
+   column is positive.  So each cell is the low of at most one column and, if it is, has no low of its own: a cell is in
+   at most one bar, either as its birth or as its death, never both. *)
+Theorem C05_positive_is_intrinsic : forall p, prime p -> forall n D R b,
+  tri p n D R -> reduced p n R -> (b < n)%nat -> (is_zero p n (R b) <-> bnd p n D b (D b)).
+Proof. exact positive_iff_dependent. Qed.
+Print Assumptions C05_positive_is_intrinsic.
+
+Theorem C05_birth_column_is_zero : forall p, prime p -> forall n D R j b,
+  (forall k, (k < n)%nat -> cycle p n D (D k)) ->
+  tri p n D R -> reduced p n R -> (j < n)%nat -> is_low p n (R j) b -> is_zero p n (R b).
+Proof. exact birth_column_is_zero. Qed.
+Print Assumptions C05_birth_column_is_zero.
+
+Theorem C05_barcode_is_a_partition : forall p, prime p -> forall n D R,
+  (forall k, (k < n)%nat -> cycle p n D (D k)) -> tri p n D R -> reduced p n R ->
+  forall b, (b < n)%nat ->
+    (forall j1 j2, (j1 < n)%nat -> (j2 < n)%nat -> is_low p n (R j1) b -> is_low p n (R j2) b -> j1 = j2) /\
+    (forall j m, (j < n)%nat -> is_low p n (R j) b -> ~ is_low p n (R b) m).
+Proof. exact barcode_partition. Qed.
+Print Assumptions C05_barcode_is_a_partition.
+
+(* non-vacuity: the boundary matrix of a filled triangle over Z_3 is a chain complex, and its certified pairing pairs
+   the cells 1, 2, 5 (births) with 3, 4, 6 (deaths): no cell on both sides, cell 0 essential *)
+Definition C05_triangle : dmat :=
+  (nil :: nil :: nil :: (-1 :: 1 :: nil) :: (-1 :: 0 :: 1 :: nil) :: (0 :: -1 :: 1 :: nil) :: (0 :: 0 :: 0 :: 1 :: -1 :: 1 :: nil) :: nil).
+Example C05_triangle_is_a_chain_complex :
+  check_chain_complex 3 7 C05_triangle = true /\
+  certified_lows 3 C05_triangle = Some (None :: None :: None :: Some 1%nat :: Some 2%nat :: None :: Some 5%nat :: nil).
+Proof. vm_compute. split; reflexivity. Qed.
 
 (* Full statement not proved: the executable reduction always produces a certificate (it is re-checked at run time
    for every input instead: certified_lows returns None otherwise and the check reports an oracle failure). *)
